@@ -129,8 +129,8 @@ def _enc_cfgs(tier, ring=False):
     res = []
     for w in (range(1, 9) if tier == "thorough" else range(1, 8)):
         for cnt in (1, 2, 3):
-            if ring and ((tier == "quick" and w == 7 and cnt != 2) or (w == 8 and cnt != 3)):
-                continue                      # 2^w * w^2 rows per table: the largest widths with one count only
+            if ring and ((tier == "quick" and w == 7) or (w == 8 and cnt != 3)):
+                continue                      # 2^w * w^2 rows per table: width 7 in thorough only, 8 with one count
             res.append({"w": w, "cnt": cnt, "via": "ports"})
     for w, cnt in ((1, 2), (3, 2), (5, 3), (6, 1)):
         res.append({"w": w, "cnt": cnt, "via": "create"})
@@ -179,7 +179,7 @@ def _ring_build(cfg):
 
 # ---- StableSelectingNetwork ------------------------------------------------------------------------
 def _ssn_cfgs(tier):
-    budget = 14 if tier == "thorough" else 12
+    budget = 14 if tier == "thorough" else 11
     res = []
     k = 0
     for n in range(1, 9 if tier == "thorough" else 7):
